@@ -17,7 +17,7 @@ func c07Router(c *vk.Ctx) {
 	fb := vk.Pick(c, 3, 6)
 	for sc := 0; sc < harness.C07Scenarios; sc++ {
 		for _, bl := range []int{1, 2} {
-			if sc == 8 || sc == 12 {
+			if sc == 8 || sc == 12 || sc == 15 {
 				for k := 0; k <= 2; k++ {
 					jobs = append(jobs, Job{Harness: "RouterScenario", Bound: -1, BudgetS: budget, FallbackDelay: fb, Params: map[string]int{"sc": sc, "buflen": bl, "k": k}})
 				}
@@ -27,12 +27,12 @@ func c07Router(c *vk.Ctx) {
 			// the same with a scheduling point before every message a writer sends: the moment a client
 			// decides to send is then independent of when its previous message was taken (more real-time
 			// orders for the must / must-not clauses of the oracle)
-			if c.Thorough() || (bl == 1 && sc != 4 && sc != 5 && sc != 11) {
+			if c.Thorough() || (bl == 1 && sc != 4 && sc != 5 && sc != 11 && sc != 15) {
 				jobs = append(jobs, Job{Harness: "RouterScenario", Bound: -1, BudgetS: budget, FallbackDelay: fb, Params: map[string]int{"sc": sc, "buflen": bl, "think": 1}})
 			}
 		}
 	}
-	c.P.Rule = "E1: every schedule of one real RouterHandler with 2-3 client connections (each: session, writer script, reader) in 15 scenarios (subscribe/publish, matching and non-matching, replacement, CLOSE, two subscribers with the same id, two publishers, disconnect by cancel or inbound close at every cut point, stalled subscriber with buflen+2 publications, self-delivery, a second publication after the first phase is quiescent following REQ/CLOSE/REQ or a first REQ racing with a publication) x buflen {1,2}, plus variants with a scheduling point before every message a client sends; map iteration order in Publish is an explored choice; unbounded within a per-job budget, else complete up to a delay bound; oracle by real-time order of call/return stamps (must / may / must-not)"
+	c.P.Rule = "E1: every schedule of one real RouterHandler with 2-3 client connections (each: session, writer script, reader) in 16 scenarios (subscribe/publish, matching and non-matching, replacement, CLOSE, two subscribers with the same id, two publishers, disconnect by cancel or inbound close at every cut point, stalled subscriber with buflen+2 publications, self-delivery, a stalled and a healthy subscriber with one publication per phase, a second publication after the first phase is quiescent following REQ/CLOSE/REQ or a first REQ racing with a publication) x buflen {1,2}, plus variants with a scheduling point before every message a client sends; map iteration order in Publish is an explored choice; unbounded within a per-job budget, else complete up to a delay bound; oracle by real-time order of call/return stamps (must / may / must-not)"
 	res := runJobs(c, jobs)
 	for i, r := range res {
 		if i%6 == 0 {
